@@ -219,3 +219,170 @@ func NewWriter(m Mode, out interface {
 	}
 	return ion.NewBinaryWriter(out, ssts...)
 }
+
+// Copy is the copy loop documented in the README (writeFromReaderToWriter),
+// completed for every Ion type in the same style: field name if non-nil,
+// annotations if any, WriteNullType for nulls, ints by IntSize, the reader's
+// symbol token handed to WriteSymbol, recursion with StepIn/StepOut.
+func Copy(r ion.Reader, w ion.Writer) error {
+	for r.Next() {
+		name, err := r.FieldName()
+		if err != nil {
+			return fmt.Errorf("FieldName: %w", err)
+		}
+		if name != nil {
+			if err := w.FieldName(*name); err != nil {
+				return fmt.Errorf("Writer.FieldName: %w", err)
+			}
+		}
+		an, err := r.Annotations()
+		if err != nil {
+			return fmt.Errorf("Annotations: %w", err)
+		}
+		if len(an) > 0 {
+			if err := w.Annotations(an...); err != nil {
+				return fmt.Errorf("Writer.Annotations: %w", err)
+			}
+		}
+		t := r.Type()
+		if r.IsNull() {
+			if err := w.WriteNullType(t); err != nil {
+				return fmt.Errorf("WriteNullType: %w", err)
+			}
+			continue
+		}
+		switch t {
+		case ion.BoolType:
+			v, err := r.BoolValue()
+			if err != nil {
+				return err
+			}
+			err = w.WriteBool(*v)
+			if err != nil {
+				return err
+			}
+		case ion.IntType:
+			size, err := r.IntSize()
+			if err != nil {
+				return err
+			}
+			switch size {
+			case ion.Int32:
+				v, err := r.IntValue()
+				if err != nil {
+					return err
+				}
+				if err := w.WriteInt(int64(*v)); err != nil {
+					return err
+				}
+			case ion.Int64:
+				v, err := r.Int64Value()
+				if err != nil {
+					return err
+				}
+				if err := w.WriteInt(*v); err != nil {
+					return err
+				}
+			default:
+				v, err := r.BigIntValue()
+				if err != nil {
+					return err
+				}
+				if err := w.WriteBigInt(v); err != nil {
+					return err
+				}
+			}
+		case ion.FloatType:
+			v, err := r.FloatValue()
+			if err != nil {
+				return err
+			}
+			if err := w.WriteFloat(*v); err != nil {
+				return err
+			}
+		case ion.DecimalType:
+			v, err := r.DecimalValue()
+			if err != nil {
+				return err
+			}
+			if err := w.WriteDecimal(v); err != nil {
+				return err
+			}
+		case ion.TimestampType:
+			v, err := r.TimestampValue()
+			if err != nil {
+				return err
+			}
+			if err := w.WriteTimestamp(*v); err != nil {
+				return err
+			}
+		case ion.SymbolType:
+			v, err := r.SymbolValue()
+			if err != nil {
+				return err
+			}
+			if err := w.WriteSymbol(*v); err != nil {
+				return fmt.Errorf("WriteSymbol: %w", err)
+			}
+		case ion.StringType:
+			v, err := r.StringValue()
+			if err != nil {
+				return err
+			}
+			if err := w.WriteString(*v); err != nil {
+				return err
+			}
+		case ion.ClobType:
+			v, err := r.ByteValue()
+			if err != nil {
+				return err
+			}
+			if err := w.WriteClob(v); err != nil {
+				return err
+			}
+		case ion.BlobType:
+			v, err := r.ByteValue()
+			if err != nil {
+				return err
+			}
+			if err := w.WriteBlob(v); err != nil {
+				return err
+			}
+		case ion.ListType, ion.SexpType, ion.StructType:
+			if err := r.StepIn(); err != nil {
+				return err
+			}
+			switch t {
+			case ion.ListType:
+				err = w.BeginList()
+			case ion.SexpType:
+				err = w.BeginSexp()
+			default:
+				err = w.BeginStruct()
+			}
+			if err != nil {
+				return err
+			}
+			if err := Copy(r, w); err != nil {
+				return err
+			}
+			if err := r.StepOut(); err != nil {
+				return err
+			}
+			switch t {
+			case ion.ListType:
+				err = w.EndList()
+			case ion.SexpType:
+				err = w.EndSexp()
+			default:
+				err = w.EndStruct()
+			}
+			if err != nil {
+				return err
+			}
+		default:
+			return fmt.Errorf("harness: unexpected type %v", t)
+		}
+	}
+	return r.Err()
+}
